@@ -142,6 +142,16 @@ func loopLeavesOnReadError(c *Ctx, rule, consequence string, rels ...string) {
 					if !consuming[name] {
 						continue
 					}
+					// judged against the innermost loop around the call only
+					inner := true
+					for _, l2 := range Loops(fn) {
+						if l2 != l && l2.Blocks[b] && len(l2.Blocks) < len(l.Blocks) {
+							inner = false
+						}
+					}
+					if !inner {
+						continue
+					}
 					tup, ok := call.Type().(*types.Tuple)
 					if !ok || tup.Len() < 2 || tup.At(tup.Len()-1).Type().String() != "error" {
 						continue
